@@ -108,6 +108,7 @@ class Ctx:
         self._vh = None
         self._vh_race = None
         self.findings = load_findings()
+        shutil.rmtree(os.path.join(VERIF, "replays", prop), ignore_errors=True)
 
     # ------------------------------------------------------------------ build
     @property
